@@ -452,6 +452,25 @@ static void case_kmac(uint64_t sub, int a, int kdf)
                     for (size_t i = 0; i < ni; ++i) { ascon_kmaca_absorb(st, in ? in + off : 0, ip[i]); off += ip[i]; }, ascon_kmaca_squeeze, ascon_kmaca_free)
     }
     report(kdf ? "C05" : "C04", alg, hist_name[hist], ok, out, exp, outlen, ctx);
+    /* the declared output length of the incremental init is a parameter of its own (0 = arbitrary length): squeeze
+     * `outlen` bytes from a state initialised with a DIFFERENT declared length and compare with the reference */
+    {
+        static const size_t DECL[] = {0, 0, 1, 16, 31, 32, 33, 64, 1000};
+        size_t declared = DECL[rng_below(R, 9)];
+        uint64_t d = declared;
+        char key2[64];
+        if (kdf) ref_cxof(a, exp, outlen, d, (const uint8_t *)"KDF", 3, custom, customlen, key, keylen);
+        else { uint8_t *x = (uint8_t *)malloc(keylen + inlen + 1); if (keylen) memcpy(x, key, keylen); if (inlen) memcpy(x + keylen, in, inlen);
+               ref_cxof(a, exp, outlen, d, (const uint8_t *)"KMAC", 4, custom, customlen, x, keylen + inlen); free(x); }
+        memset(out, GPAT, outlen);
+#define KM_DECL(ST, INIT, ABSORB, SQUEEZE, FREE) { ST *st = (ST *)galloc(sizeof(ST), 0); INIT(st, key, keylen, custom, customlen, declared); ABSORB SQUEEZE(st, out, outlen); FREE(st); gfree(st); }
+        if (kdf) { if (!a) KM_DECL(ascon_kdf_state_t, ascon_kdf_init, ;, ascon_kdf_squeeze, ascon_kdf_free) else KM_DECL(ascon_kdfa_state_t, ascon_kdfa_init, ;, ascon_kdfa_squeeze, ascon_kdfa_free) }
+        else { if (!a) KM_DECL(ascon_kmac_state_t, ascon_kmac_init, ascon_kmac_absorb(st, in, inlen);, ascon_kmac_squeeze, ascon_kmac_free)
+               else KM_DECL(ascon_kmaca_state_t, ascon_kmaca_init, ascon_kmaca_absorb(st, in, inlen);, ascon_kmaca_squeeze, ascon_kmaca_free) }
+        snprintf(key2, sizeof(key2), "%s:declared-length", alg);
+        vf_eq(kdf ? "C05" : "C04", key2, "init with a declared length, squeeze another length", out, exp, outlen, "\"declared\":%zu,%s", declared, ctx);
+        vf_distinct("%s|declared%s|out%s", alg, declared == 0 ? "0" : declared == 32 ? "32" : "n", outlen == 0 ? "0" : outlen == 32 ? "32" : "n");
+    }
     vf_distinct("%s|key%s|in%s|cust%s|out%s|%s", alg, keylen == 0 ? "0" : keylen % 8 ? "part" : "full", len_class(inlen, 8, c1),
                 customlen == 0 ? "0" : customlen % 8 ? "part" : "full", outlen == 32 ? "32-precomputed" : outlen == 0 ? "0" : outlen < 32 ? "<32" : ">32", hist_name[hist]);
     if (vf_case % 1103 == 5) vf_sample("%s", ctx);
